@@ -292,6 +292,7 @@ class C13(Check):
                                 + pr.handler_errors[0])
             else:
                 res.probe("killed_before_exit")
+                res.fault("process_killed_before_exit_handlers")
             rerun_ok = False
             if scn["kill"] and not res.violations:
                 # judge what the killed run left behind (below), then run the
